@@ -336,7 +336,7 @@ Section Inside.
   Record at_args (st : pstate) (f : frame) (rest : list frame) : Prop := {
     aa_stack : p_stack st = f :: rest;
     aa_cstate : p_cstate st = CArgs;
-    aa_expected : p_expected st = None \/ p_expected st = Some [TSemicolon];
+    aa_expected : p_expected st = None \/ (p_expected st = Some [TSemicolon] /\ iscomplete f None = true);
     aa_flat : flat f = true;
     aa_fi : fi f
   }.
@@ -382,7 +382,7 @@ Section Inside.
     induction args as [|a args IH]; intros st f rest e Haa Hall Hfeed; [discriminate|].
     inversion Hall as [|a' t' Ha Ht]; subst.
     destruct Haa as [Es Hc Hex Hflat Hfi].
-    destruct Hex as [He|He].
+    destruct Hex as [He|(He & _)].
     2:{ (* ';' is expected: the first token of the argument is refused *)
         destruct (arg_first_token a Ha) as (t0 & more0 & E0 & N0 & K0).
         exists [], t0, (more0 ++ flat_map arg_toks args), st, EExpected.
@@ -463,7 +463,7 @@ Section Inside.
         rewrite (cc_flat stC f1 rest true EsC Hflat1), andb_true_r in PC.
         set (stN := if iscomplete f1 None then with_expected (Some [TSemicolon]) stC else stC) in *.
         assert (Haa1 : at_args stN f1 rest).
-        { unfold stN. destruct (iscomplete f1 None); constructor; pcbn; auto;
+        { unfold stN. destruct (iscomplete f1 None) eqn:Eic; constructor; pcbn; auto;
             try (unfold stC, replace_top, st1; pcbn; rewrite EsB; pcbn; auto). }
         assert (Hl1 : p_loaded stN = p_loaded st).
         { unfold stN. destruct (iscomplete f1 None); pcbn; unfold stC, replace_top, st1; pcbn; rewrite EsB; pcbn; exact LB'. }
@@ -482,13 +482,98 @@ Section Inside.
     - apply (Hscalar TNumber x TyNumber eq_refl eq_refl). right. left. split; reflexivity.
   Qed.
 
+  (* the positive run under the same invariant: legal arguments leave the machine at the command, ready for more *)
+  Theorem args_run : forall args st f rest fN,
+    at_args st f rest -> Forall arg_ok args -> feed f args (p_loaded st) = FOk fN ->
+    exists st', steps T st (flat_map arg_toks args) = Some st' /\ at_args st' fN rest /\
+                p_loaded st' = p_loaded st /\ p_brackets st' = p_brackets st.
+  Proof.
+    induction args as [|a args IH]; intros st f rest fN Haa Hall Hfeed.
+    - cbn in Hfeed. inversion Hfeed; subst fN. exists st. cbn [flat_map steps]. auto.
+    - inversion Hall as [|a' t' Ha Ht]; subst.
+      destruct Haa as [Es Hc Hex Hflat Hfi].
+      cbn [feed] in Hfeed.
+      destruct (check_next_arg f (fst a) (snd a) true true (p_loaded st)) as [f1 slot| | |] eqn:E; try discriminate.
+      pose proof (cna_ok_incomplete _ _ _ _ _ _ _ _ E) as Hinc.
+      destruct Hex as [He|(_ & Hcomp)]; [|congruence].
+      destruct (cna_keeps _ _ _ _ _ _ _ _ Hfi (arg_ok_shape a Ha) E) as (Hf1 & Hd1 & _ & _).
+      assert (Hflat1 : flat f1 = true) by (unfold flat, is_action, is_control in *; rewrite Hd1; exact Hflat).
+      assert (Hci : cur_is st f rest) by (constructor; assumption).
+      destruct (one_arg_gen T st f rest a f1 slot Hci Ha E) as (stX & ts & P1 & S1 & C1 & E1 & V1).
+      rewrite (cc_flat stX f1 rest ts S1 Hflat1) in P1. cbn [ostep] in P1.
+      set (stN := if iscomplete f1 None && ts then with_expected (Some [TSemicolon]) stX else stX) in *.
+      assert (Haa1 : at_args stN f1 rest).
+      { unfold stN. destruct (iscomplete f1 None) eqn:Eic; destruct ts; cbn [andb]; constructor; pcbn; auto. }
+      destruct V1 as (V1 & V2 & V3 & V4).
+      assert (Hl1 : p_loaded stN = p_loaded st) by (unfold stN; destruct (iscomplete f1 None && ts); pcbn; exact V2).
+      assert (Hb1 : p_brackets stN = p_brackets st) by (unfold stN; destruct (iscomplete f1 None && ts); pcbn; exact V1).
+      rewrite <- Hl1 in Hfeed.
+      destruct (IH stN f1 rest fN Haa1 Ht Hfeed) as (st' & S2 & A2 & L2 & B2).
+      exists st'. cbn [flat_map]. rewrite steps_app, P1. split; [exact S2|]. split; [exact A2|]. split; congruence.
+  Qed.
+
+  (* ---- malformed string lists: after '[' a string must come, after a string ',' or ']', after ',' a string *)
+
+  Definition list_open (st : pstate) : pstate :=
+    with_expected (Some [TString]) (with_curlist [] (with_cstate CStrList (with_brackets (BRBracket :: p_brackets st) st))).
+
+  Lemma open_list : forall st f rest,
+    at_args st f rest -> p_expected st = None ->
+    process T st (mk TLeftBracket [91%N]) = MTrue (list_open st).
+  Proof.
+    intros st f rest [Es Hc _ Hflat _] He.
+    unfold process, mk. cbn [t_kind]. rewrite He.
+    unfold m_command. rewrite Hc. unfold m_arguments, m_argument. cbn [t_kind]. rewrite Es.
+    fold (list_open st).
+    assert (EsA : p_stack (list_open st) = f :: rest) by (unfold list_open; pcbn; exact Es).
+    rewrite (cc_flat (list_open st) f rest false EsA Hflat), andb_false_r. reflexivity.
+  Qed.
+
+  (* the tokens of a string list that is still open: items with commas, possibly a trailing comma *)
+  Definition open_items (items : list bytes) (trailing_comma : bool) : list token :=
+    item_toks items ++ (if trailing_comma then [mk TComma [44%N]] else []).
+
+  Theorem malformed_list_stop : forall st f rest items tc t,
+    at_args st f rest -> p_expected st = None ->
+    Forall (fun s => utf8_valid s = true) items -> (items = [] -> tc = false) ->
+    not_comment (t_kind t) = true ->
+    (* what may come here: a string after '[' or ','; ',' or ']' after a string *)
+    (if match items with [] => true | _ => tc end
+     then kind_mem (t_kind t) [TString] = false
+     else kind_mem (t_kind t) [TComma; TRightBracket] = false) ->
+    exists st', steps T st (mk TLeftBracket [91%N] :: open_items items tc) = Some st' /\ stops (process T st' t) EExpected.
+  Proof.
+    intros st f rest items tc t Haa He Hall Htc Hnc Hbad.
+    pose proof (open_list st f rest Haa He) as PA.
+    destruct Haa as [Es Hc _ Hflat _].
+    assert (IA : in_list (list_open st) f rest (p_brackets st) []) by (constructor; unfold list_open; pcbn; auto).
+    unfold open_items. cbn [steps]. rewrite PA.
+    destruct items as [|i0 items'].
+    - rewrite (Htc eq_refl). cbn [item_toks app steps]. eexists. split; [reflexivity|].
+      apply (expected_mismatch (list_open st) t [TString]); [reflexivity|exact Hbad|exact Hnc].
+    - destruct (items_steps T (i0 :: items') (list_open st) f rest (p_brackets st) [] ltac:(discriminate) Hall IA eq_refl)
+        as (stB & PB & IB & EB & LB & HB & RB).
+      rewrite steps_app, PB.
+      destruct tc.
+      + (* after the comma a string is expected *)
+        cbn [steps].
+        assert (PCm : process T stB (mk TComma [44%N]) = MTrue (with_expected (Some [TString]) stB)).
+        { destruct IB as [EsB HcB HbB HlB].
+          unfold process, mk. cbn [t_kind]. rewrite EB. cbn [kind_mem tkind_eqb orb].
+          unfold m_command. pcbn. rewrite HcB. unfold m_stringlist. pcbn. cbn [t_kind]. rewrite EsB. reflexivity. }
+        rewrite PCm. eexists. split; [reflexivity|].
+        apply (expected_mismatch _ t [TString]); [reflexivity|exact Hbad|exact Hnc].
+      + cbn [steps]. eexists. split; [reflexivity|].
+        apply (expected_mismatch stB t [TComma; TRightBracket] EB Hbad Hnc).
+  Qed.
+
   (* '{' after a command that takes no block *)
   Lemma block_after_flat : forall st f rest t,
     at_args st f rest -> t_kind t = TLeftCBracket -> d_non_deterministic_args (f_def f) = false ->
     exists e, stops (process T st t) e.
   Proof.
     intros st f rest t [Es Hc Hex Hflat Hfi] Hk Hnd.
-    destruct Hex as [He|He].
+    destruct Hex as [He|(He & _)].
     - exists EUnexpectedToken. right. split; [|reflexivity]. exists st.
       unfold process. rewrite Hk, He. unfold m_command. rewrite Hc. unfold m_arguments, m_argument. rewrite Hk, Es, Hnd. cbv iota. rewrite ?Es.
       unfold flat in Hflat. destruct (is_control f && d_accept_children (f_def f)) eqn:E; [|reflexivity].
@@ -764,6 +849,132 @@ Section Texts.
     { rewrite Hl. repeat (rewrite <- app_assoc; cbn [app]). reflexivity. }
     apply (reject_after_prefix T text (pre ++ tn :: otoks ++ btoks) t rest stE EMustFollow Hl'); [|exact X].
     rewrite map_app, steps_app, S1. cbn [map]. rewrite map_app, app_comm_cons, steps_app, S2, Hbt. exact S3.
+  Qed.
+  (* ---- malformed string lists in the arguments of an action *)
+
+  Lemma split_strip : forall (toks : list token) (a b : list token),
+    map strip_pos toks = a ++ b -> exists ta tb, toks = ta ++ tb /\ map strip_pos ta = a /\ map strip_pos tb = b.
+  Proof.
+    intros toks a. revert toks. induction a as [|x a IH]; intros toks b H.
+    - exists [], toks. auto.
+    - destruct toks as [|t toks]; [discriminate|]. cbn [map app] in H. inversion H as [[E1 E2]].
+      destruct (IH toks b E2) as (ta & tb & A & B & C). exists (t :: ta), tb. cbn [map app]. rewrite A, B, C. auto.
+  Qed.
+
+  (* `name args0 [ items...` then a token that cannot continue the list: an empty list, a missing comma, a comma
+     before the closing bracket, a list that is not closed *)
+  Theorem malformed_string_list_rejected : forall text pre tn a0toks lb ltoks t rest L prev k d args0 am em items tc,
+    wf_prefix T (map strip_pos pre) L prev k ->
+    fst (lex text) = pre ++ tn :: a0toks ++ lb :: ltoks ++ t :: rest ->
+    t_kind tn = TIdentifier -> get_command_instance T L (t_val tn) = inl d -> flat_def d = true ->
+    wf_def d = true -> fixed_arity d = true -> Forall arg_ok args0 ->
+    map strip_pos a0toks = flat_map arg_toks args0 -> legal d L args0 = LIncomplete am em ->
+    strip_pos lb = mk TLeftBracket [91%N] -> map strip_pos ltoks = open_items items tc ->
+    Forall (fun s => utf8_valid s = true) items -> (items = [] -> tc = false) ->
+    not_comment (t_kind t) = true ->
+    (if match items with [] => true | _ => tc end
+     then kind_mem (t_kind t) [TString] = false
+     else kind_mem (t_kind t) [TComma; TRightBracket] = false) ->
+    parse T text = Reject EExpected (t_pos t) (length (t_val t)).
+  Proof.
+    intros text pre tn a0toks lb ltoks t rest L prev k d args0 am em items tc
+           Hp Hl Hkn Hg Hf Hwf Hfa Hall Hat Hleg Hlb Hlt Hu Htc Hnc Hbad.
+    destruct (prefix_ready T HT _ L prev k Hp) as (st & S1 & R1 & L1 & _).
+    destruct (after_flat_name st L (t_val tn) d R1 L1 Hg Hf) as (st1 & P1 & Ld1 & A1 & E1).
+    assert (Hsh : Forall (fun x => arg_shape_ok x = true) args0).
+    { apply Forall_forall. intros x Hx. rewrite Forall_forall in Hall. apply arg_ok_spec_shape. apply Hall. exact Hx. }
+    pose proof (argcheck_correct_gen d (at_in (p_stack st)) L args0 Hwf Hfa Hsh) as C.
+    unfold corr_stmt in C. rewrite Hleg in C. cbn [corr] in C. destruct C as (fN & Hfeed & Hinc & _).
+    rewrite <- Ld1 in Hfeed.
+    destruct (args_run T args0 st1 _ _ fN A1 Hall Hfeed) as (st2 & S2 & A2 & L2 & B2).
+    assert (E2 : p_expected st2 = None).
+    { destruct A2 as [_ _ [X|(_ & X)] _ _]; [exact X|congruence]. }
+    destruct (malformed_list_stop T st2 fN _ items tc t A2 E2 Hu Htc Hnc Hbad) as (st3 & S3 & X).
+    assert (Etn : strip_pos tn = mk TIdentifier (t_val tn)) by (destruct tn; cbn in *; unfold strip_pos, mk; cbn; congruence).
+    assert (Hl' : fst (lex text) = (pre ++ tn :: a0toks ++ lb :: ltoks) ++ t :: rest).
+    { rewrite Hl. repeat (rewrite <- app_assoc; cbn [app]). reflexivity. }
+    apply (reject_after_prefix T text (pre ++ tn :: a0toks ++ lb :: ltoks) t rest st3 EExpected Hl'); [|exact X].
+    rewrite map_app, steps_app, S1. cbn [map steps]. rewrite Etn, P1.
+    rewrite map_app, steps_app, Hat, S2. cbn [map]. rewrite Hlb, Hlt. exact S3.
+  Qed.
+
+  (* ---- the end of the text *)
+
+  (* blocks still open at the end of the text *)
+  Theorem unclosed_block_rejected : forall text L prev k,
+    wf_prefix T (map strip_pos (fst (lex text))) L prev (S k) -> snd (lex text) = None ->
+    exists ll, parse T text = Reject EEndExpected (length text) ll.
+  Proof.
+    intros text L prev k Hp Herr.
+    destruct (prefix_ready T HT _ L prev (S k) Hp) as (st & S1 & R1 & L1 & P1 & B1 & A1).
+    rewrite parse_run_tokens, Herr.
+    destruct (steps_run_tokens T (fst (lex text)) p_init st (2 * length text + 2) (length text) 0 S1) as (ll & ->).
+    { pose proof (token_count text). lia. }
+    exists ll. unfold finish. destruct (p_brackets st) as [|b bs]; [discriminate B1|]. reflexivity.
+  Qed.
+
+  (* a command that is not finished at the end of the text: `name args` without ';' *)
+  Theorem unfinished_command_rejected : forall text pre tn a0toks L prev k d args0 fN,
+    wf_prefix T (map strip_pos pre) L prev k ->
+    fst (lex text) = pre ++ tn :: a0toks -> snd (lex text) = None ->
+    t_kind tn = TIdentifier -> get_command_instance T L (t_val tn) = inl d -> flat_def d = true ->
+    Forall arg_ok args0 -> map strip_pos a0toks = flat_map arg_toks args0 ->
+    (forall at_, feed (new_frame d at_) args0 L = FOk (fN at_)) ->
+    exists e ll, (e = EEndExpected \/ e = EEndUnfinished) /\ parse T text = Reject e (length text) ll.
+  Proof.
+    intros text pre tn a0toks L prev k d args0 fN Hp Hl Herr Hkn Hg Hf Hall Hat Hfeed.
+    destruct (prefix_ready T HT _ L prev k Hp) as (st & S1 & R1 & L1 & _).
+    destruct (after_flat_name st L (t_val tn) d R1 L1 Hg Hf) as (st1 & P1 & Ld1 & A1 & E1).
+    specialize (Hfeed (at_in (p_stack st))). rewrite <- Ld1 in Hfeed.
+    destruct (args_run T args0 st1 _ _ _ A1 Hall Hfeed) as (st2 & S2 & A2 & L2 & B2).
+    assert (Etn : strip_pos tn = mk TIdentifier (t_val tn)) by (destruct tn; cbn in *; unfold strip_pos, mk; cbn; congruence).
+    assert (S3 : steps T p_init (map strip_pos (fst (lex text))) = Some st2).
+    { rewrite Hl, map_app, steps_app, S1. cbn [map steps]. rewrite Etn, P1, Hat. exact S2. }
+    rewrite parse_run_tokens, Herr.
+    destruct (steps_run_tokens T (fst (lex text)) p_init st2 (2 * length text + 2) (length text) 0 S3) as (ll & ->).
+    { pose proof (token_count text). lia. }
+    destruct A2 as [Es _ _ _ _].
+    unfold finish. rewrite Es.
+    destruct (match p_brackets st2 with b :: _ => Some [closing_kind b] | [] => p_expected st2 end).
+    - exists EEndExpected, ll. auto.
+    - exists EEndUnfinished, ll. auto.
+  Qed.
+
+  (* ---- an empty or malformed test list: after `if anyof (` the name of a test must come *)
+  Theorem empty_test_list_rejected : forall text pre tn tl lp t rest L prev k d a dl,
+    wf_prefix T (map strip_pos pre) L prev k ->
+    fst (lex text) = pre ++ tn :: tl :: lp :: t :: rest ->
+    t_kind tn = TIdentifier -> get_command_instance T L (t_val tn) = inl d ->
+    d_type d = CControl -> d_accept_children d = true -> d_args d = [a] -> is_t1 a = true ->
+    t_kind tl = TIdentifier -> get_command_instance T L (t_val tl) = inl dl -> d_type dl = CTest ->
+    d_expected_first dl = Some [TLeftParen] -> iscomplete (new_frame dl (at_of a)) None = false ->
+    t_kind lp = TLeftParen ->
+    not_comment (t_kind t) = true -> kind_mem (t_kind t) [TIdentifier] = false ->
+    parse T text = Reject EExpected (t_pos t) (length (t_val t)).
+  Proof.
+    intros text pre tn tl lp t rest L prev k d a dl Hp Hl Hkn Hg Hty Hch Ha Ht1 Hkl Hgl Htyl Hef Hinc Hklp Hnc Hbad.
+    destruct (prefix_ready T HT _ L prev k Hp) as (st & S1 & R1 & L1 & _).
+    assert (Htw : twf d = true) by (eapply gci_twf; eauto).
+    destruct (after_name st L (t_val tn) d R1 L1 Hg ltac:(congruence)) as (st1 & P1 & C1 & K1 & Ld1 & E1).
+    assert (Hha : has_arguments d = true) by (unfold has_arguments; rewrite Ha; reflexivity).
+    rewrite Hty, Hch, Hha in E1. cbn in E1.
+    destruct (cna_t1_new L d (at_in (p_stack st)) a Htw Ha Ht1) as (N1 & EC & _).
+    pose proof (push_test T L st1 _ _ N1 a (t_val tl) dl K1 C1 ltac:(rewrite E1; reflexivity) Ld1 EC Hgl Htyl) as P2.
+    set (stL := with_stack (new_frame dl (at_of a) :: N1 :: p_stack st) (with_expected (d_expected_first dl) st1)) in *.
+    assert (EsL : p_stack stL = new_frame dl (at_of a) :: N1 :: p_stack st) by reflexivity.
+    rewrite (cc_incomplete stL _ _ false EsL Hinc) in P2.
+    (* '(' *)
+    set (stP := with_expected (Some [TIdentifier]) (with_brackets (BRParen :: p_brackets stL) (with_expected None stL))).
+    assert (P3 : process T stL lp = MTrue stP).
+    { unfold process. rewrite Hklp. unfold stL at 1. pcbn. rewrite Hef. cbn [kind_mem tkind_eqb orb].
+      unfold m_command. pcbn. unfold stL at 1. pcbn. rewrite C1. unfold m_arguments. rewrite Hklp. reflexivity. }
+    assert (Etn : strip_pos tn = mk TIdentifier (t_val tn)) by (destruct tn; cbn in *; unfold strip_pos, mk; cbn; congruence).
+    assert (Etl : strip_pos tl = mk TIdentifier (t_val tl)) by (destruct tl; cbn in *; unfold strip_pos, mk; cbn; congruence).
+    assert (Hl' : fst (lex text) = (pre ++ [tn; tl; lp]) ++ t :: rest).
+    { rewrite Hl. repeat (rewrite <- app_assoc; cbn [app]). reflexivity. }
+    apply (reject_after_prefix T text (pre ++ [tn; tl; lp]) t rest stP EExpected Hl').
+    - rewrite map_app, steps_app, S1. cbn [map steps]. rewrite Etn, P1, Etl, P2, process_strip, P3. reflexivity.
+    - apply (expected_mismatch T stP t [TIdentifier]); [reflexivity|exact Hbad|exact Hnc].
   Qed.
 End Texts.
 
